@@ -1,5 +1,7 @@
 # coding: utf-8
 """C20 — registries are coherent read-only mappings of uniquely identified plasmids."""
+import copy
+
 from harness import common
 
 EXTRA_OBLIGATION_FILES = ("Props/C20_archives.v",)
@@ -117,12 +119,20 @@ def combined_obs(case):
         def __len__(self):
             return len(self._d)
 
+    def build(m):
+        if isinstance(m, dict):          # a member that is itself a combination
+            inner = CombinedRegistry()
+            for sub in m["nested"]:
+                inner << build(sub)
+            return inner
+        return Fake(m)
+
     comb = CombinedRegistry()
     for j, m in enumerate(case["members"]):
         if j % 2:
-            comb << Fake(m)
+            comb << build(m)
         else:
-            comb.add_registry(Fake(m))
+            comb.add_registry(build(m))
     keys = list(comb)
     probes = {}
     for k in case["probes"]:
@@ -183,7 +193,15 @@ def gen_combined(ctx):
         members = []
         for j in range(rng.randrange(0, 5)):
             if members and rng.random() < 0.2:
-                members.append(list(rng.choice(members)))          # the same member again
+                members.append(copy.deepcopy(rng.choice(members)))          # the same member again
+                continue
+            if rng.random() < 0.25:
+                # a member that is itself a combined registry of 1-3 sub-members
+                subs = []
+                for t in range(rng.randrange(1, 4)):
+                    ks = rng.sample(pool, rng.randrange(0, 5))
+                    subs.append([[k, "m%d.%d:%s" % (j, t, k)] for k in ks])
+                members.append({"nested": subs})
                 continue
             ks = rng.sample(pool, rng.randrange(0, 6))
             members.append([[k, "m%d:%s" % (j, k)] for k in ks])
@@ -279,10 +297,23 @@ def run(ctx):
     for c, o in zip(ccases, cobs):
         ctx.evaluations += 1
         ctx.count("combined:members=%d" % len(c["members"]))
+        if any(isinstance(m, dict) for m in c["members"]):
+            ctx.count("combined:with-nested-combination")
         union = []
         first = {}
+
+        def flat(m):
+            if isinstance(m, dict):
+                seen, out = set(), []
+                for sub in m["nested"]:
+                    for k, tag in flat(sub):
+                        if k not in seen:
+                            seen.add(k)
+                            out.append((k, tag))
+                return out
+            return [(k, tag) for k, tag in m]
         for m in c["members"]:
-            for k, tag in m:
+            for k, tag in flat(m):
                 if k not in first:
                     first[k] = tag
                     union.append(k)
@@ -301,7 +332,11 @@ def run(ctx):
                     v = ("C20:combined:first-wins", "key %r found as %r, the first member holding it has %r" % (k, p["name"], first[k]))
         if v:
             ctx.violations.append({"signature": v[0], "what": v[1], "input": c})
-        regs = "; ".join("[" + "; ".join("(%s, %s)" % (cs(k), cs(t)) for k, t in m) + "]" for m in c["members"])
+        def cm(m):
+            if isinstance(m, dict):
+                return "(combine String.eqb [%s])" % "; ".join(cm(x) for x in m["nested"])
+            return "[" + "; ".join("(%s, %s)" % (cs(k), cs(t)) for k, t in m) + "]"
+        regs = "; ".join(cm(m) for m in c["members"])
         probes = "; ".join("(%s, %s)" % (cs(k), copt(p.get("name") if p.get("found") else None)) for k, p in o["probes"].items())
         terms.append("([%s], [%s], %d, [%s])" % (regs, "; ".join(cs(k) for k in o["iter"]), o["len"], probes))
     bad = common.coq_eval_cases(ctx, "comb", IMPORTS, terms, "check_comb", per_file=500)
